@@ -551,8 +551,21 @@ pub fn run_case_focus(case: &QueueCase, ctx: &Ctx, focus: Option<QRule>) -> Run 
                     let h = live[li];
                     let m = metric_name(next_metric);
                     next_metric += 1;
-                    let room = case.cap.map_or(true, |c| queue.len() < c);
-                    if !room {
+                    // Some(true/false): the model knows; None: a zero-capacity (rendezvous) queue whose
+                    // worker holds nothing - whether it is already parked in recv() is a matter of timing,
+                    // both results are right
+                    let room_known: Option<bool> = match case.cap {
+                        None => Some(true),
+                        Some(0) => {
+                            if inhand.is_some() || !queue.is_empty() {
+                                Some(false)
+                            } else {
+                                None
+                            }
+                        }
+                        Some(c) => Some(queue.len() < c),
+                    };
+                    if room_known == Some(false) {
                         was_full = true;
                     }
                     match actor.call(Cmd::Emit(h, m.clone()), w) {
@@ -560,14 +573,20 @@ pub fn run_case_focus(case: &QueueCase, ctx: &Ctx, focus: Option<QRule>) -> Run 
                             if n != m.len() {
                                 find!([QRule::Isolation], oi, "emit of a {}-byte metric returned Ok({})", m.len(), n);
                             }
+                            let room = room_known != Some(false);
                             if !room {
                                 find!(
                                     [QRule::Isolation],
                                     oi,
-                                    "emit returned Ok although the bounded queue (capacity {:?}) already holds {} metrics",
+                                    "emit returned Ok although the bounded queue (capacity {:?}) already holds {} metrics{}",
                                     case.cap,
-                                    queue.len()
+                                    queue.len(),
+                                    if inhand.is_some() { " and the worker is busy with another one" } else { "" }
                                 );
+                                // whatever happened to that metric, an Ok emit must be counted as submitted
+                                accepted += 1;
+                                check_counters!(oi);
+                                accepted -= 1;
                                 fatal = true;
                             }
                             if was_full && room {
@@ -588,7 +607,7 @@ pub fn run_case_focus(case: &QueueCase, ctx: &Ctx, focus: Option<QRule>) -> Run 
                         }
                         Ok(Reply::Emit(Err(e))) => {
                             st.emits_refused += 1;
-                            if room {
+                            if room_known == Some(true) {
                                 let mut rules = vec![QRule::Isolation, QRule::Deliver];
                                 if any_panic {
                                     // "... and the sink keeps accepting metrics" (C11)
@@ -959,6 +978,7 @@ fn step_out(err_w: u32, panic_w: u32) -> impl Strategy<Value = StepOut> {
 pub fn cap_strategy() -> impl Strategy<Value = Option<usize>> {
     prop_oneof![
         3 => Just(None),
+        1 => Just(Some(0usize)),
         2 => Just(Some(1usize)),
         2 => Just(Some(2usize)),
         2 => Just(Some(3usize)),
@@ -1178,7 +1198,8 @@ impl Campaign for QueueCampaign {
         }
     }
     fn check(&self, case: &QueueCase, ctx: &Ctx) -> Outcome {
-        if case.cap == Some(0) {
+        if case.cap == Some(0) && self.focus == QRule::Isolation {
+            // C10 quantifies over capacities >= 1
             return Outcome::ok();
         }
         if NONFOCUS_TIMEOUTS.load(std::sync::atomic::Ordering::Relaxed) > 60 {
